@@ -3,29 +3,67 @@
 package secp256k1
 
 // Accessors injected into the root package by the verification harness (go build -overlay, tag verif).
-// They contain no logic beyond field access and calling an existing unexported function.
+//
+// They read and write the raw projective coordinates of an Element. To stay compilable when the module under test is
+// edited, they refer to NO unexported identifier: the three coordinate fields are located by reflection as the first
+// three struct fields of Element whose type is field.Element, and the limb array as the first [4]uint64-shaped field
+// of field.Element. The accessors contain no arithmetic.
 
-import "github.com/bytemare/secp256k1/internal/field"
+import (
+	"reflect"
+	"unsafe"
+
+	"github.com/bytemare/secp256k1/internal/field"
+)
+
+var (
+	vCoordOff [3]uintptr
+	vLimbOff  uintptr
+	vOK       bool
+)
+
+func init() {
+	fe := reflect.TypeOf(field.Element{})
+	limbs := reflect.TypeOf([4]uint64{})
+	found := false
+
+	for i := 0; i < fe.NumField(); i++ {
+		if fe.Field(i).Type.ConvertibleTo(limbs) && fe.Field(i).Type.Kind() == reflect.Array {
+			vLimbOff = fe.Field(i).Offset
+			found = true
+
+			break
+		}
+	}
+
+	t := reflect.TypeOf(Element{})
+	k := 0
+
+	for i := 0; i < t.NumField() && k < 3; i++ {
+		if t.Field(i).Type == fe {
+			vCoordOff[k] = t.Field(i).Offset
+			k++
+		}
+	}
+
+	vOK = found && k == 3
+}
+
+// VOK reports whether the coordinate fields could be located.
+func VOK() bool { return vOK }
+
+func vLimbs(e *Element, i int) *[4]uint64 {
+	if !vOK {
+		panic("harness: cannot locate the coordinate fields of Element by reflection")
+	}
+
+	return (*[4]uint64)(unsafe.Add(unsafe.Pointer(e), vCoordOff[i]+vLimbOff))
+}
 
 // VRaw returns the stored (Montgomery-domain) limbs of the projective coordinates.
-func VRaw(e *Element) (x, y, z [4]uint64) { return e.x.E, e.y.E, e.z.E }
+func VRaw(e *Element) (x, y, z [4]uint64) { return *vLimbs(e, 0), *vLimbs(e, 1), *vLimbs(e, 2) }
 
 // VSetRaw overwrites the stored limbs of the projective coordinates.
-func VSetRaw(e *Element, x, y, z [4]uint64) { e.x.E, e.y.E, e.z.E = x, y, z }
-
-// VFE exposes the coordinate field elements.
-func VFE(e *Element) (x, y, z *field.Element) { return &e.x, &e.y, &e.z }
-
-// VAddIso calls the affine addition on the isogenous curve used by HashToGroup.
-func VAddIso(q0, q1 *Element) *Element { return q0.addAffine3Iso2(q1) }
-
-// VExpandXMD calls expand_message_xmd.
-func VExpandXMD(in, dst []byte, l uint) []byte { return expandXMD(in, dst, l) }
-
-// VIdentityRaw returns the stored limbs of the package-level identity variable.
-func VIdentityRaw() (x, y, z [4]uint64) { return identity.x.E, identity.y.E, identity.z.E }
-
-// VErrs returns the package-level error variables, in a fixed order.
-func VErrs() []error {
-	return []error{errParamInvalidPointEncoding, errParamScalarLength, errParamNilScalar, errParamScalarTooBig, errZeroLenDST}
+func VSetRaw(e *Element, x, y, z [4]uint64) {
+	*vLimbs(e, 0), *vLimbs(e, 1), *vLimbs(e, 2) = x, y, z
 }
